@@ -98,7 +98,8 @@ class FrameSetup(object):
         E.loop_info = {}
         E.keep_iter_states = getattr(self, 'keep_iter_states', False)
         mo = self.soff('mapper_real')
-        E.tracked_preds = {'M': [(('in', 'st', mo + i), ('in', 'frame', 24 + i)) for i in range(6)]}
+        E.tracked_preds = {'M': [(('in', 'st', mo + i), ('in', 'frame', 24 + i)) for i in range(6)],
+                           'B': [(('in', 'frame', 24 + i), ('in', 'frame', 6 + i)) for i in range(6)]}
 
         def setup(I, st):
             a = self.args(I, st)
